@@ -45,6 +45,8 @@ impl C20 {
             provider.log_all.set(true);
             // the tail of `extra` decides the provider flavour (older tapes keep their meaning)
             let reversed = sc.extra.get(95).map_or(false, |v| v & 1 == 1);
+            provider.vary_answers();
+            let reversed = reversed || provider.filter_reversed.get();
             provider.filter_reversed.set(reversed);
             let cache = SolverCache::new(provider);
             let log_len = |cache: &SolverCache<TableProvider>| cache.provider().log.borrow().len();
@@ -279,6 +281,8 @@ impl C20 {
             let policy = if sc.extra.get(94 - ui).map_or(true, |v| v & 1 == 0) { Policy::Lifo } else { Policy::Fifo };
             let sched = crate::sched::Sched::new(policy, vec![]);
             let provider = TableProvider::new(c.u.clone()).with_sched(sched.clone());
+        provider.vary_answers();
+            provider.vary_answers();
             let cache = SolverCache::new(provider);
             let rt = crate::sched::SchedRuntime { sched: sched.clone() };
             let req = Requirement::Union(VersionSetUnionId(un.id));
@@ -567,6 +571,7 @@ fn strip_unrepresentable(u: &mut Universe) {
     for pk in u.packages.iter_mut() {
         pk.favored = None;
         pk.locked = None;
+        pk.lock_gone = false;
     }
 }
 
@@ -584,7 +589,7 @@ impl C16 {
 
     fn check(&self, sc: &StructCase, c: &Case, rep: &mut CaseReport) {
         rep.evaluations = 1;
-        if c.u.packages.iter().any(|p| p.favored.is_some() || p.locked.is_some()) {
+        if c.u.packages.iter().any(|p| p.favored.is_some() || p.has_lock()) {
             rep.skipped = Some("favored-or-locked-not-representable");
             return;
         }
